@@ -226,3 +226,1213 @@ Lemma fold_inv {A} (f : state -> A -> state) (I : state -> Prop) :
 Proof.
   intros H l. induction l as [|a l IH]; intros s Hs; [exact Hs|]. cbn. apply IH, H, Hs.
 Qed.
+
+(* ------------------------------------------------------------------ frame facts *)
+
+Lemma ttl_fire_frame s now r :
+  heap (ttl_fire s now r) = heap s /\ watch (ttl_fire s now r) = watch s /\
+  count (ttl_fire s now r) = count s /\ next_stamp (ttl_fire s now r) = next_stamp s /\
+  held (ttl_fire s now r) = held s /\ drained (ttl_fire s now r) = drained s /\
+  checked (ttl_fire s now r) = checked s /\ admits (ttl_fire s now r) = admits s.
+Proof. unfold ttl_fire. destruct (_ && _ && _); cbn; repeat split; reflexivity. Qed.
+
+Lemma release_frame c s r :
+  heap (release c s r) = heap s /\ watch (release c s r) = watch s /\
+  count (release c s r) = count s /\ next_stamp (release c s r) = next_stamp s /\
+  held (release c s r) = held s /\ drained (release c s r) = drained s /\
+  checked (release c s r) = checked s /\ admits (release c s r) = admits s.
+Proof. unfold release. destruct (gated_drain _); [destruct (is_enq _)|]; cbn; repeat split; reflexivity. Qed.
+
+Lemma fold_ttl_frame now l s :
+  let s' := fold_left (fun s0 r => ttl_fire s0 now r) l s in
+  heap s' = heap s /\ watch s' = watch s /\ count s' = count s /\ next_stamp s' = next_stamp s /\
+  held s' = held s /\ drained s' = drained s /\ checked s' = checked s /\ admits s' = admits s.
+Proof.
+  revert s. induction l as [|a l IH]; intros s; cbn; [repeat split; reflexivity|].
+  specialize (IH (ttl_fire s now a)). pose proof (ttl_fire_frame s now a) as F. cbn in IH.
+  destruct IH as (?&?&?&?&?&?&?&?), F as (?&?&?&?&?&?&?&?). repeat split; congruence.
+Qed.
+
+Lemma ttl_scan_frame s now :
+  heap (ttl_scan s now) = heap s /\ watch (ttl_scan s now) = watch s /\
+  count (ttl_scan s now) = count s /\ next_stamp (ttl_scan s now) = next_stamp s /\
+  held (ttl_scan s now) = held s /\ drained (ttl_scan s now) = drained s /\
+  checked (ttl_scan s now) = checked s /\ admits (ttl_scan s now) = admits s.
+Proof. apply (fold_ttl_frame now (watch s) s). Qed.
+
+Lemma fold_release_frame c l s :
+  let s' := fold_left (release c) l s in
+  heap s' = heap s /\ watch s' = watch s /\ count s' = count s /\ next_stamp s' = next_stamp s /\
+  held s' = held s /\ drained s' = drained s /\ checked s' = checked s /\ admits s' = admits s.
+Proof.
+  revert s. induction l as [|a l IH]; intros s; cbn; [repeat split; reflexivity|].
+  specialize (IH (release c s a)). pose proof (release_frame c s a) as F. cbn in IH.
+  destruct IH as (?&?&?&?&?&?&?&?), F as (?&?&?&?&?&?&?&?). repeat split; congruence.
+Qed.
+
+(* ------------------------------------------------------------------ group A: watch list, counter *)
+
+Definition in_watch_pc (i : rinfo) : Prop :=
+  pc i = PRegistered \/ pc i = PWaiting \/ pc i = PReturned.
+
+Record InvA (s : state) : Prop := {
+  A_watch : forall r, In r (watch s) <-> in_watch_pc (info s r);
+  A_nodup : NoDup (watch s);
+  A_count : count s = Z.of_nat (length (watch s));
+  A_chk : forall r, In r (checked s) <-> pc (info s r) = PChecked;
+  A_chk_nodup : NoDup (checked s)
+}.
+
+Lemma InvA_init : InvA init.
+Proof.
+  constructor; cbn; try constructor; unfold in_watch_pc; cbn; try tauto;
+    try (intros [H|[H|H]]; discriminate); try discriminate.
+Qed.
+
+Lemma InvA_same_pc s s' :
+  watch s' = watch s -> count s' = count s -> checked s' = checked s ->
+  (forall x, pc (info s' x) = pc (info s x)) -> InvA s -> InvA s'.
+Proof.
+  intros Hw Hc Hk Hp [A1 A2 A3 A4 A5].
+  constructor; rewrite ?Hw, ?Hc, ?Hk; auto; intros r; unfold in_watch_pc; rewrite Hp;
+    [apply A1|apply A4].
+Qed.
+
+Lemma ttl_fire_pc s now r x : pc (info (ttl_fire s now r) x) = pc (info s x).
+Proof.
+  unfold ttl_fire. destruct (_ && _ && _); [|reflexivity]. cbn.
+  destruct (Z.eq_dec x r) as [->|Hne]; [rewrite upd_same|rewrite upd_other by assumption]; reflexivity.
+Qed.
+
+Lemma release_pc c s r x : pc (info (release c s r) x) = pc (info s x).
+Proof.
+  unfold release. destruct (gated_drain _); [destruct (is_enq _)|]; cbn; try reflexivity;
+  (destruct (Z.eq_dec x r) as [->|Hne]; [rewrite upd_same|rewrite upd_other by assumption]; reflexivity).
+Qed.
+
+Lemma fold_ttl_pc now l s x :
+  pc (info (fold_left (fun s0 r => ttl_fire s0 now r) l s) x) = pc (info s x).
+Proof.
+  revert s. induction l as [|a l IH]; intros s; cbn; [reflexivity|]. rewrite IH. apply ttl_fire_pc.
+Qed.
+
+Lemma ttl_scan_pc s now x : pc (info (ttl_scan s now) x) = pc (info s x).
+Proof. apply fold_ttl_pc. Qed.
+
+Lemma fold_release_pc c l s x : pc (info (fold_left (release c) l s) x) = pc (info s x).
+Proof.
+  revert s. induction l as [|a l IH]; intros s; cbn; [reflexivity|]. rewrite IH. apply release_pc.
+Qed.
+
+Lemma InvA_step c s a : InvA s -> InvA (step c s a).
+Proof.
+  intros HA. pose proof HA as [A1 A2 A3 A4 A5].
+  destruct a as [r p now|r|r| |b|now r|now|r|r| ]; cbn [step].
+  - (* ArriveCheck *)
+    unfold arrive_check. destruct (pc (info s r)) eqn:Epc; try exact HA.
+    destruct (qmax c <=? count s).
+    + constructor; cbn; auto; intros x; unfold in_watch_pc;
+        (destruct (Z.eq_dec x r) as [->|Hne]; [rewrite upd_same|rewrite upd_other by assumption]); cbn.
+      * rewrite A1. unfold in_watch_pc. rewrite Epc. split; intros [H|[H|H]]; discriminate.
+      * apply A1.
+      * rewrite A4, Epc. split; discriminate.
+      * apply A4.
+    + constructor; cbn; auto.
+      * intros x. unfold in_watch_pc.
+        destruct (Z.eq_dec x r) as [->|Hne]; [rewrite upd_same|rewrite upd_other by assumption]; cbn.
+        -- rewrite A1. unfold in_watch_pc. rewrite Epc. split; intros [H|[H|H]]; discriminate.
+        -- apply A1.
+      * intros x.
+        destruct (Z.eq_dec x r) as [->|Hne]; [rewrite upd_same|rewrite upd_other by assumption]; cbn.
+        -- split; auto.
+        -- rewrite <- A4. split; [intros [H|H]; [congruence|assumption]|auto].
+      * constructor; [|assumption]. rewrite A4, Epc. discriminate.
+  - (* ArriveRegister *)
+    unfold arrive_register. destruct (pc (info s r)) eqn:Epc; try exact HA.
+    assert (Hnw : ~ In r (watch s)).
+    { rewrite A1. unfold in_watch_pc. rewrite Epc. intros [H|[H|H]]; discriminate. }
+    destruct (shared_full c s || _ || _).
+    + constructor; cbn; auto.
+      * intros x. unfold in_watch_pc.
+        destruct (Z.eq_dec x r) as [->|Hne]; [rewrite upd_same|rewrite upd_other by assumption]; cbn.
+        -- split; [intros H; contradiction|intros [H|[H|H]]; discriminate].
+        -- apply A1.
+      * intros x. rewrite removeZ_In.
+        destruct (Z.eq_dec x r) as [->|Hne]; [rewrite upd_same|rewrite upd_other by assumption]; cbn.
+        -- split; [tauto|discriminate].
+        -- rewrite A4. tauto.
+      * apply removeZ_NoDup. assumption.
+    + constructor; cbn [info heap watch count checked].
+      * intros x. unfold in_watch_pc.
+        destruct (Z.eq_dec x r) as [->|Hne]; [rewrite upd_same|rewrite upd_other by assumption]; cbn.
+        -- split; auto.
+        -- rewrite <- (A1 x). split; [intros [H|H]; [congruence|assumption]|auto].
+      * constructor; assumption.
+      * cbn [length]. lia.
+      * intros x. rewrite removeZ_In.
+        destruct (Z.eq_dec x r) as [->|Hne]; [rewrite upd_same|rewrite upd_other by assumption]; cbn.
+        -- split; [tauto|discriminate].
+        -- rewrite A4. tauto.
+      * apply removeZ_NoDup. assumption.
+  - (* ArrivePush *)
+    unfold arrive_push. destruct (pc (info s r)) eqn:Epc; try exact HA.
+    constructor; cbn; auto; intros x; unfold in_watch_pc;
+      (destruct (Z.eq_dec x r) as [->|Hne]; [rewrite upd_same|rewrite upd_other by assumption]); cbn.
+    + rewrite A1. unfold in_watch_pc. rewrite Epc. split; auto.
+    + apply A1.
+    + rewrite A4, Epc. split; discriminate.
+    + apply A4.
+  - (* TickPop *)
+    unfold tick_pop. destruct (drained s); [exact HA|]. destruct (held s); [exact HA|].
+    destruct (heap s) as [|[[p t] r] h']; [exact HA|].
+    destruct (memZ r (watch s) && is_enq (info s r)).
+    + apply (InvA_same_pc s); auto. intros x. cbn.
+      destruct (Z.eq_dec x r) as [->|Hne]; [rewrite upd_same|rewrite upd_other by assumption]; reflexivity.
+    + apply (InvA_same_pc s); auto.
+  - (* TickDecide *)
+    unfold tick_decide. destruct (held s) as [r|]; [|exact HA].
+    destruct b; [|destruct (keep_stamp (var c))];
+      (apply (InvA_same_pc s); auto; intros x; cbn;
+       destruct (Z.eq_dec x r) as [->|Hne]; [rewrite upd_same|rewrite upd_other by assumption]; reflexivity).
+  - (* TtlFire *)
+    pose proof (ttl_fire_frame s now r) as (?&?&?&?&?&?&?&?).
+    apply (InvA_same_pc s); auto. apply ttl_fire_pc.
+  - (* TtlScan *)
+    pose proof (ttl_scan_frame s now) as (?&?&?&?&?&?&?&?).
+    apply (InvA_same_pc s); auto. apply ttl_scan_pc.
+  - (* WaiterReturn *)
+    unfold waiter_return. destruct (pc (info s r)) eqn:Epc; try exact HA.
+    destruct (1 <=? dones (info s r)); [|exact HA].
+    constructor; cbn; auto; intros x; unfold in_watch_pc;
+      (destruct (Z.eq_dec x r) as [->|Hne]; [rewrite upd_same|rewrite upd_other by assumption]); cbn.
+    + rewrite A1. unfold in_watch_pc. rewrite Epc. split; auto.
+    + apply A1.
+    + rewrite A4, Epc. split; discriminate.
+    + apply A4.
+  - (* Remove *)
+    unfold remove. destruct (pc (info s r)) eqn:Epc; try exact HA.
+    assert (Hw : In r (watch s)). { apply A1. unfold in_watch_pc. rewrite Epc. auto. }
+    constructor; cbn [info heap watch count checked].
+    + intros x. rewrite removeZ_In. unfold in_watch_pc.
+      destruct (Z.eq_dec x r) as [->|Hne]; [rewrite upd_same|rewrite upd_other by assumption]; cbn.
+      * split; [tauto|intros [H|[H|H]]; discriminate].
+      * rewrite (A1 x). unfold in_watch_pc. tauto.
+    + apply removeZ_NoDup. assumption.
+    + rewrite removeZ_length by assumption. lia.
+    + intros x.
+      destruct (Z.eq_dec x r) as [->|Hne]; [rewrite upd_same|rewrite upd_other by assumption]; cbn.
+      * rewrite A4, Epc. split; discriminate.
+      * apply A4.
+    + assumption.
+  - (* Drain *)
+    unfold drain. destruct (drained s); [exact HA|]. destruct (held s); [exact HA|].
+    pose proof (fold_release_frame c (watch s) s) as F. cbn in F. destruct F as (?&?&?&?&?&?&?&?).
+    apply (InvA_same_pc s); cbn; auto. intros x. apply fold_release_pc.
+Qed.
+
+(* ------------------------------------------------------------------ group B: gate and signals *)
+
+Record InvB (s : state) : Prop := {
+  B_held : forall r, held s = Some r <-> st (info s r) = Proc;
+  B_d0 : forall r, st (info s r) <> Dn -> dones (info s r) = 0;
+  B_d1 : forall r, st (info s r) = Dn -> 1 <= dones (info s r);
+  B_ret : forall r, pc (info s r) = PReturned -> 1 <= dones (info s r)
+}.
+
+Lemma InvB_init : InvB init.
+Proof. constructor; cbn; intros; try discriminate; try reflexivity. split; discriminate. Qed.
+
+Lemma InvB_nonneg s r : InvB s -> 0 <= dones (info s r).
+Proof.
+  intros [_ B0 B1 _]. destruct (st (info s r)) eqn:E.
+  - rewrite B0; [lia|congruence].
+  - rewrite B0; [lia|congruence].
+  - specialize (B1 r E). lia.
+Qed.
+
+Ltac updc x r :=
+  destruct (Z.eq_dec x r) as [->|?Hne]; [rewrite ?upd_same|rewrite ?upd_other by assumption].
+
+Lemma InvB_same s s' :
+  held s' = held s ->
+  (forall x, st (info s' x) = st (info s x) /\ dones (info s' x) = dones (info s x) /\
+             (pc (info s' x) = PReturned -> pc (info s x) = PReturned \/ 1 <= dones (info s x))) ->
+  InvB s -> InvB s'.
+Proof.
+  intros Hh Hx [B1 B2 B3 B4]. constructor; intros r; destruct (Hx r) as (Hs & Hd & Hp).
+  - rewrite Hh, Hs. apply B1.
+  - rewrite Hs, Hd. apply B2.
+  - rewrite Hs, Hd. apply B3.
+  - rewrite Hd. intros H. destruct (Hp H) as [H'|H']; [apply B4; assumption|assumption].
+Qed.
+
+Lemma InvB_ttl_fire s now r : InvB s -> InvB (ttl_fire s now r).
+Proof.
+  intros HB. pose proof HB as [B1 B2 B3 B4]. unfold ttl_fire.
+  destruct (memZ r (watch s) && (expire (info s r) <? now) && is_enq (info s r)) eqn:G; [|exact HB].
+  apply andb_true_iff in G. destruct G as [_ G]. unfold is_enq in G.
+  destruct (st (info s r)) eqn:Est; try discriminate.
+  assert (Hd : dones (info s r) = 0) by (apply B2; congruence).
+  constructor; cbn; intros x; updc x r; cbn; auto.
+  - rewrite B1, Est. split; discriminate.
+  - intros H. congruence.
+  - intros _. lia.
+  - intros _. lia.
+Qed.
+
+Lemma InvB_release c s r : InvB s -> held s = None -> InvB (release c s r).
+Proof.
+  intros HB Hh. pose proof HB as [B1 B2 B3 B4]. pose proof (InvB_nonneg s r HB) as Hnn.
+  assert (Hnp : forall x, st (info s x) <> Proc).
+  { intros x Hx. apply B1 in Hx. congruence. }
+  unfold release. destruct (gated_drain (var c)).
+  - unfold is_enq. destruct (st (info s r)) eqn:Est; try exact HB.
+    constructor; cbn; intros x; updc x r; cbn; auto.
+    + rewrite Hh. split; discriminate.
+    + congruence.
+    + intros _. lia.
+    + intros _. lia.
+  - constructor; cbn; intros x; updc x r; cbn; auto.
+    + rewrite Hh. split; discriminate.
+    + congruence.
+    + intros _. lia.
+    + intros _. lia.
+Qed.
+
+Lemma InvB_fold_release c l s :
+  InvB s -> held s = None -> InvB (fold_left (release c) l s).
+Proof.
+  revert s. induction l as [|a l IH]; intros s HB Hh; cbn; [exact HB|].
+  apply IH; [apply InvB_release; assumption|].
+  pose proof (release_frame c s a) as (?&?&?&?&?&?&?&?). congruence.
+Qed.
+
+Lemma InvB_step c s a : InvB s -> InvB (step c s a).
+Proof.
+  intros HB. pose proof HB as [B1 B2 B3 B4].
+  destruct a as [r p now|r|r| |b|now r|now|r|r| ]; cbn [step].
+  - unfold arrive_check. destruct (pc (info s r)) eqn:Epc; try exact HB.
+    destruct (qmax c <=? count s);
+      (apply (InvB_same s); [reflexivity| |exact HB]; intros x; cbn; updc x r; cbn;
+       repeat split; auto; discriminate).
+  - unfold arrive_register. destruct (pc (info s r)) eqn:Epc; try exact HB.
+    destruct (shared_full c s || _ || _);
+      (apply (InvB_same s); [reflexivity| |exact HB]; intros x; cbn; updc x r; cbn;
+       repeat split; auto; discriminate).
+  - unfold arrive_push. destruct (pc (info s r)) eqn:Epc; try exact HB.
+    apply (InvB_same s); [reflexivity| |exact HB]. intros x; cbn; updc x r; cbn;
+      repeat split; auto; discriminate.
+  - (* TickPop *)
+    unfold tick_pop. destruct (drained s); [exact HB|]. destruct (held s) eqn:Eh; [exact HB|].
+    destruct (heap s) as [|[[p t] r] h']; [exact HB|].
+    destruct (memZ r (watch s) && is_enq (info s r)) eqn:G.
+    + apply andb_true_iff in G. destruct G as [_ G]. unfold is_enq in G.
+      destruct (st (info s r)) eqn:Est; try discriminate.
+      constructor; cbn; intros x; updc x r; cbn; auto.
+      * split; reflexivity.
+      * rewrite <- B1. split; intros H; congruence.
+      * intros _. apply B2. congruence.
+      * discriminate.
+    + apply (InvB_same s); [cbn; congruence| |exact HB]. intros x. cbn. auto.
+  - (* TickDecide *)
+    unfold tick_decide. destruct (held s) as [r|] eqn:Eh; [|exact HB].
+    assert (Est : st (info s r) = Proc) by (apply B1; reflexivity).
+    assert (Hd : dones (info s r) = 0) by (apply B2; congruence).
+    assert (Hoth : forall x, x <> r -> st (info s x) <> Proc).
+    { intros x Hx H. apply B1 in H. congruence. }
+    destruct b; [|destruct (keep_stamp (var c))];
+      (constructor; cbn; intros x; updc x r; cbn; auto;
+       [split; discriminate
+       |split; [discriminate|intros H; exfalso; eapply Hoth; eassumption]
+       |try congruence; try (intros _; lia)..]).
+  - apply InvB_ttl_fire. exact HB.
+  - unfold ttl_scan. apply fold_inv; [|exact HB]. intros s0 r0. apply InvB_ttl_fire.
+  - unfold waiter_return. destruct (pc (info s r)) eqn:Epc; try exact HB.
+    destruct (1 <=? dones (info s r)) eqn:G; [|exact HB]. apply Z.leb_le in G.
+    apply (InvB_same s); [reflexivity| |exact HB]. intros x; cbn; updc x r; cbn; repeat split; auto.
+  - unfold remove. destruct (pc (info s r)) eqn:Epc; try exact HB.
+    apply (InvB_same s); [reflexivity| |exact HB]. intros x; cbn; updc x r; cbn; repeat split; auto;
+      try discriminate.
+  - unfold drain. destruct (drained s); [exact HB|]. destruct (held s) eqn:Eh; [exact HB|].
+    pose proof (InvB_fold_release c (watch s) s HB Eh) as HB'.
+    apply (InvB_same (fold_left (release c) (watch s) s)); [reflexivity| |exact HB'].
+    intros x. cbn. auto.
+Qed.
+
+(* ------------------------------------------------------------------ group D: admissions *)
+
+Record InvD (s : state) : Prop := {
+  D_adm : forall r, res (info s r) = Success -> In r (admits s);
+  D_verd : forall r, verdict (info s r) = Some true -> In r (admits s);
+  D_dn : forall r, In r (admits s) -> st (info s r) = Dn;
+  D_nodup : NoDup (admits s)
+}.
+
+Lemma InvD_init : InvD init.
+Proof. constructor; cbn; intros; try discriminate; try contradiction. constructor. Qed.
+
+Lemma InvD_same s s' :
+  admits s' = admits s ->
+  (forall x, (res (info s' x) = Success -> res (info s x) = Success) /\
+             (verdict (info s' x) = Some true ->
+              verdict (info s x) = Some true \/ res (info s x) = Success) /\
+             (st (info s x) = Dn -> st (info s' x) = Dn)) ->
+  InvD s -> InvD s'.
+Proof.
+  intros Ha Hx [D1 D2 D3 D4]. constructor; rewrite ?Ha; auto; intros r; destruct (Hx r) as (H1 & H2 & H3).
+  - intros H. apply D1, H1, H.
+  - intros H. destruct (H2 H) as [H'|H']; [apply D2|apply D1]; assumption.
+  - intros H. apply H3, D3, H.
+Qed.
+
+Lemma InvD_ttl_fire s now r : InvD s -> InvD (ttl_fire s now r).
+Proof.
+  intros HD. unfold ttl_fire. destruct (_ && _ && _); [|exact HD].
+  apply (InvD_same s); [reflexivity| |exact HD]. intros x. cbn. updc x r; cbn; repeat split; auto.
+  discriminate.
+Qed.
+
+Lemma InvD_release c s r : InvD s -> InvD (release c s r).
+Proof.
+  intros HD. unfold release. destruct (gated_drain _); [destruct (is_enq _)|]; try exact HD;
+    (apply (InvD_same s); [reflexivity| |exact HD]; intros x; cbn; updc x r; cbn; repeat split; auto;
+     discriminate).
+Qed.
+
+Lemma InvD_step c s a : InvB s -> InvD s -> InvD (step c s a).
+Proof.
+  intros HB HD. pose proof HB as [B1 B2 B3 B4]. pose proof HD as [D1 D2 D3 D4].
+  destruct a as [r p now|r|r| |b|now r|now|r|r| ]; cbn [step].
+  - unfold arrive_check. destruct (pc (info s r)) eqn:Epc; try exact HD.
+    destruct (qmax c <=? count s);
+      (apply (InvD_same s); [reflexivity| |exact HD]; intros x; cbn; updc x r; cbn;
+       repeat split; auto; discriminate).
+  - unfold arrive_register. destruct (pc (info s r)) eqn:Epc; try exact HD.
+    destruct (shared_full c s || _ || _);
+      (apply (InvD_same s); [reflexivity| |exact HD]; intros x; cbn; updc x r; cbn;
+       repeat split; auto; discriminate).
+  - unfold arrive_push. destruct (pc (info s r)) eqn:Epc; try exact HD.
+    apply (InvD_same s); [reflexivity| |exact HD]. intros x; cbn; updc x r; cbn; repeat split; auto.
+  - unfold tick_pop. destruct (drained s); [exact HD|]. destruct (held s) eqn:Eh; [exact HD|].
+    destruct (heap s) as [|[[p t] r] h']; [exact HD|].
+    destruct (memZ r (watch s) && is_enq (info s r)) eqn:G.
+    + apply andb_true_iff in G. destruct G as [_ G]. unfold is_enq in G.
+      destruct (st (info s r)) eqn:Est; try discriminate.
+      apply (InvD_same s); [reflexivity| |exact HD]. intros x; cbn; updc x r; cbn; repeat split; auto.
+      congruence.
+    + apply (InvD_same s); [reflexivity| |exact HD]. intros x. cbn. auto.
+  - unfold tick_decide. destruct (held s) as [r|] eqn:Eh; [|exact HD].
+    assert (Est : st (info s r) = Proc) by (apply B1; reflexivity).
+    destruct b.
+    + constructor; cbn.
+      * intros x. updc x r; cbn; auto.
+      * intros x. updc x r; cbn; auto.
+      * intros x [Hx|Hx]; [subst; rewrite upd_same; reflexivity|].
+        updc x r; cbn; auto.
+      * constructor; [|assumption]. intros Hi. apply D3 in Hi. congruence.
+    + destruct (keep_stamp (var c));
+        (apply (InvD_same s); [reflexivity| |exact HD]; intros x; cbn; updc x r; cbn; repeat split; auto;
+         congruence).
+  - apply InvD_ttl_fire. exact HD.
+  - unfold ttl_scan. apply fold_inv; [|exact HD]. intros s0 r0. apply InvD_ttl_fire.
+  - unfold waiter_return. destruct (pc (info s r)) eqn:Epc; try exact HD.
+    destruct (1 <=? dones (info s r)) eqn:G; [|exact HD].
+    apply (InvD_same s); [reflexivity| |exact HD]. intros x; cbn; updc x r; cbn; repeat split; auto.
+    destruct (res (info s r)); intros H; try discriminate. auto.
+  - unfold remove. destruct (pc (info s r)) eqn:Epc; try exact HD.
+    apply (InvD_same s); [reflexivity| |exact HD]. intros x; cbn; updc x r; cbn; repeat split; auto.
+  - unfold drain. destruct (drained s); [exact HD|]. destruct (held s) eqn:Eh; [exact HD|].
+    assert (HD' : InvD (fold_left (release c) (watch s) s)).
+    { apply fold_inv; [|exact HD]. intros s0 r0. apply InvD_release. }
+    apply (InvD_same (fold_left (release c) (watch s) s)); [reflexivity| |exact HD'].
+    intros x. cbn. auto.
+Qed.
+
+(* ------------------------------------------------------------------ group C: the heap and the stamps *)
+
+Definition pushed_pc (i : rinfo) : Prop := pc i = PWaiting \/ pc i = PReturned.
+
+Record InvC (c : cfg) (s : state) : Prop := {
+  C_sorted : sorted (heap s);
+  C_hnodup : NoDup (ids (heap s));
+  C_hent : forall p t x, In (p, t, x) (heap s) ->
+      p = prio (info s x) /\ pushed_pc (info s x) /\ t < next_stamp s /\
+      (keep_stamp (var c) = true -> t = astamp (info s x));
+  C_hwait : forall r, pc (info s r) = PWaiting -> st (info s r) = Enq ->
+      exists t, In (prio (info s r), t, r) (heap s);
+  C_held_pc : forall r, held s = Some r -> pc (info s r) = PWaiting;
+  C_held_heap : forall r, held s = Some r -> ~ In r (ids (heap s));
+  C_st_lt : forall r, pushed_pc (info s r) -> astamp (info s r) < next_stamp s;
+  C_st_inj : forall r r', pushed_pc (info s r) -> pushed_pc (info s r') ->
+      astamp (info s r) = astamp (info s r') -> r = r'
+}.
+
+Lemma InvC_init c : InvC c init.
+Proof.
+  constructor; cbn; try (intros; contradiction); try (intros; discriminate); try constructor.
+  - intros r [H|H]; discriminate.
+  - intros r r' [H|H]; discriminate.
+Qed.
+
+Lemma in_ids p t x h : In (p, t, x) h -> In x (ids h).
+Proof. intros H. unfold ids. apply in_map_iff. exists (p, t, x). split; [reflexivity|assumption]. Qed.
+
+(* steps that touch only state / result / signal count of requests *)
+Lemma InvC_info_only c s s' :
+  heap s' = heap s -> next_stamp s' = next_stamp s -> (held s' = held s \/ held s' = None) ->
+  (forall x, pc (info s' x) = pc (info s x) /\ prio (info s' x) = prio (info s x) /\
+             astamp (info s' x) = astamp (info s x) /\
+             (st (info s' x) = Enq -> st (info s x) = Enq)) ->
+  InvC c s -> InvC c s'.
+Proof.
+  intros Hh Hn Hd Hx [C1 C2 C3 C4 C5 C6 C7 C8].
+  assert (Hp : forall x, pushed_pc (info s' x) <-> pushed_pc (info s x)).
+  { intros x. unfold pushed_pc. destruct (Hx x) as (-> & _). tauto. }
+  constructor; rewrite ?Hh, ?Hn; auto.
+  - intros p t x Hi. destruct (C3 p t x Hi) as (H1 & H2 & H3 & H4). destruct (Hx x) as (E1 & E2 & E3 & _).
+    rewrite E2, E3, Hp. auto.
+  - intros r H1 H2. destruct (Hx r) as (E1 & E2 & E3 & E4). rewrite E2. apply C4; [congruence|auto].
+  - intros r H. destruct (Hx r) as (E1 & _). rewrite E1. apply C5. destruct Hd as [Hd|Hd]; congruence.
+  - intros r H. apply C6. destruct Hd as [Hd|Hd]; congruence.
+  - intros r H. destruct (Hx r) as (_ & _ & E3 & _). rewrite E3. apply C7, Hp, H.
+  - intros r r' H1 H2 H3. destruct (Hx r) as (_ & _ & E3 & _), (Hx r') as (_ & _ & E3' & _).
+    apply C8; [apply Hp, H1|apply Hp, H2|congruence].
+Qed.
+
+Lemma InvC_ttl_fire c s now r : InvC c s -> InvC c (ttl_fire s now r).
+Proof.
+  intros HC. unfold ttl_fire. destruct (_ && _ && _); [|exact HC].
+  apply (InvC_info_only c s); cbn; auto. intros x. updc x r; cbn; repeat split; auto. discriminate.
+Qed.
+
+Lemma InvC_release c s r : InvC c s -> InvC c (release c s r).
+Proof.
+  intros HC. unfold release. destruct (gated_drain _); [destruct (is_enq _)|]; try exact HC;
+    (apply (InvC_info_only c s); cbn; auto; intros x; updc x r; cbn; repeat split; auto; discriminate).
+Qed.
+
+Lemma InvC_step c s a : InvA s -> InvB s -> InvC c s -> InvC c (step c s a).
+Proof.
+  intros HA HB HC. pose proof HA as [A1 A2 A3 A4 A5]. pose proof HB as [B1 B2 B3 B4].
+  pose proof HC as [C1 C2 C3 C4 C5 C6 C7 C8].
+  assert (Hentpc : forall r, ~ pushed_pc (info s r) -> forall p t x, In (p, t, x) (heap s) -> x <> r).
+  { intros r Hr p t x Hi ->. apply Hr. apply (C3 p t r Hi). }
+  destruct a as [r p now|r|r| |b|now r|now|r|r| ]; cbn [step].
+  - (* ArriveCheck *)
+    unfold arrive_check. destruct (pc (info s r)) eqn:Epc; try exact HC.
+    assert (Hnp : ~ pushed_pc (info s r)) by (unfold pushed_pc; rewrite Epc; intros [H|H]; discriminate).
+    destruct (qmax c <=? count s);
+    (constructor; cbn [info heap next_stamp held with_info]; auto;
+     [ intros p0 t x Hi; pose proof (Hentpc r Hnp p0 t x Hi) as Hx; rewrite upd_other by assumption;
+       apply C3; assumption
+     | intros x; updc x r; cbn; [discriminate|apply C4]
+     | intros x Hh; pose proof (C5 x Hh) as Hw; updc x r; [congruence|assumption]
+     | intros x; updc x r; cbn; [unfold pushed_pc; cbn; intros [H|H]; discriminate|apply C7]
+     | intros x y; updc x r; [unfold pushed_pc; cbn; intros [H|H]; discriminate|];
+       updc y r; [unfold pushed_pc; cbn; intros _ [H|H]; discriminate|apply C8] ]).
+  - (* ArriveRegister *)
+    unfold arrive_register. destruct (pc (info s r)) eqn:Epc; try exact HC.
+    assert (Hnp : ~ pushed_pc (info s r)) by (unfold pushed_pc; rewrite Epc; intros [H|H]; discriminate).
+    destruct (shared_full c s || _ || _);
+    (constructor; cbn [info heap next_stamp held]; auto;
+     [ intros p0 t x Hi; pose proof (Hentpc r Hnp p0 t x Hi) as Hx; rewrite upd_other by assumption;
+       apply C3; assumption
+     | intros x; updc x r; cbn; [discriminate|apply C4]
+     | intros x Hh; pose proof (C5 x Hh) as Hw; updc x r; [congruence|assumption]
+     | intros x; updc x r; cbn; [unfold pushed_pc; cbn; intros [H|H]; discriminate|apply C7]
+     | intros x y; updc x r; [unfold pushed_pc; cbn; intros [H|H]; discriminate|];
+       updc y r; [unfold pushed_pc; cbn; intros _ [H|H]; discriminate|apply C8] ]).
+  - (* ArrivePush *)
+    unfold arrive_push. destruct (pc (info s r)) eqn:Epc; try exact HC.
+    assert (Hnp : ~ pushed_pc (info s r)) by (unfold pushed_pc; rewrite Epc; intros [H|H]; discriminate).
+    assert (Hnh : ~ In r (ids (heap s))).
+    { intros Hi. unfold ids in Hi. apply in_map_iff in Hi. destruct Hi as [[[p0 t0] x0] [E Hi]].
+      cbn in E. subst. apply Hnp. apply (C3 p0 t0 r Hi). }
+    constructor; cbn [info heap next_stamp held].
+    + apply hinsert_sorted. assumption.
+    + apply hinsert_ids_NoDup; assumption.
+    + intros p0 t x Hi. apply hinsert_In in Hi. destruct Hi as [Hi|Hi].
+      * inversion Hi; subst. rewrite upd_same. cbn. unfold pushed_pc. cbn. repeat split; auto. lia.
+      * pose proof (Hentpc r Hnp p0 t x Hi) as Hx. rewrite upd_other by assumption.
+        destruct (C3 p0 t x Hi) as (H1 & H2 & H3 & H4). repeat split; auto. lia.
+    + intros x. updc x r; cbn.
+      * intros _ _. exists (next_stamp s). apply hinsert_In. now left.
+      * intros H1 H2. destruct (C4 x H1 H2) as [t Ht]. exists t. apply hinsert_In. now right.
+    + intros x Hh. pose proof (C5 x Hh) as Hw. updc x r; [congruence|assumption].
+    + intros x Hh Hi. apply hinsert_ids_In in Hi. cbn in Hi. destruct Hi as [->|Hi].
+      * pose proof (C5 r Hh). congruence.
+      * apply (C6 x Hh Hi).
+    + intros x. updc x r; cbn; [lia|]. intros H. specialize (C7 x H). lia.
+    + intros x y. updc x r; updc y r; cbn; auto.
+      * intros _ H E. specialize (C7 y H). lia.
+      * intros H _ E. specialize (C7 x H). lia.
+  - (* TickPop *)
+    unfold tick_pop. destruct (drained s); [exact HC|]. destruct (held s) eqn:Eh; [exact HC|].
+    destruct (heap s) as [|[[p t] r] h'] eqn:Ehp; [exact HC|].
+    assert (Hd' : NoDup (ids h') /\ ~ In r (ids h')).
+    { cbn in C2. inversion C2; subst. auto. }
+    destruct Hd' as [Hd1 Hd2].
+    destruct (memZ r (watch s) && is_enq (info s r)) eqn:G.
+    + apply andb_true_iff in G. destruct G as [_ G]. unfold is_enq in G.
+      destruct (st (info s r)) eqn:Est; try discriminate.
+      constructor; cbn [info heap next_stamp held].
+      * eapply sorted_tail; eassumption.
+      * assumption.
+      * intros p0 t0 x Hi. assert (Hi' : In (p0, t0, x) ((p, t, r) :: h')) by now right.
+        destruct (C3 p0 t0 x Hi') as (H1 & H2 & H3 & H4).
+        updc x r; cbn; repeat split; auto.
+      * intros x. updc x r; cbn; [discriminate|].
+        intros H1 H2. destruct (C4 x H1 H2) as [t0 [Ht|Ht]]; [inversion Ht; congruence|eauto].
+      * intros x Hh. inversion Hh; subst. rewrite upd_same. cbn.
+        destruct (C3 p t x (or_introl eq_refl)) as (_ & [Hw|Hr] & _); [assumption|].
+        specialize (B4 x Hr). rewrite (B2 x) in B4 by congruence. lia.
+      * intros x Hh. inversion Hh; subst. assumption.
+      * intros x. updc x r; cbn; apply C7.
+      * intros x y. updc x r; updc y r; cbn; auto; apply C8.
+    + constructor; cbn [info heap next_stamp held]; auto.
+      * eapply sorted_tail; eassumption.
+      * intros p0 t0 x Hi. apply C3. now right.
+      * intros x H1 H2. destruct (C4 x H1 H2) as [t0 [Ht|Ht]]; [|eauto].
+        inversion Ht; subst. exfalso.
+        assert (Hw : In x (watch s)) by (apply A1; unfold in_watch_pc; auto).
+        apply memZ_In in Hw. unfold is_enq in G. rewrite Hw, H2 in G. discriminate.
+      * intros x H. discriminate.
+  - (* TickDecide *)
+    unfold tick_decide. destruct (held s) as [r|] eqn:Eh; [|exact HC].
+    pose proof (C5 r eq_refl) as Hpc. pose proof (C6 r eq_refl) as Hnh.
+    assert (Hpp : pushed_pc (info s r)) by (left; assumption).
+    destruct b.
+    + apply (InvC_info_only c s); cbn; auto. intros x. updc x r; cbn; repeat split; auto. discriminate.
+    + destruct (keep_stamp (var c)) eqn:Ek.
+      * constructor; cbn [info heap next_stamp held].
+        -- apply hinsert_sorted. assumption.
+        -- apply hinsert_ids_NoDup; assumption.
+        -- intros p0 t x Hi. apply hinsert_In in Hi. destruct Hi as [Hi|Hi].
+           ++ inversion Hi; subst. rewrite upd_same. cbn. repeat split; auto.
+           ++ destruct (C3 p0 t x Hi) as (H1 & H2 & H3 & H4). updc x r; cbn; repeat split; auto.
+        -- intros x. updc x r; cbn.
+           ++ intros _ _. exists (astamp (info s r)). apply hinsert_In. now left.
+           ++ intros H1 H2. destruct (C4 x H1 H2) as [t Ht]. exists t. apply hinsert_In. now right.
+        -- intros x H. discriminate.
+        -- intros x H. discriminate.
+        -- intros x. updc x r; cbn; apply C7.
+        -- intros x y. updc x r; updc y r; cbn; auto; apply C8.
+      * constructor; cbn [info heap next_stamp held].
+        -- apply hinsert_sorted. assumption.
+        -- apply hinsert_ids_NoDup; assumption.
+        -- intros p0 t x Hi. apply hinsert_In in Hi. destruct Hi as [Hi|Hi].
+           ++ inversion Hi; subst. rewrite upd_same. cbn. repeat split; auto; [lia|congruence].
+           ++ destruct (C3 p0 t x Hi) as (H1 & H2 & H3 & H4).
+              updc x r; cbn; repeat split; auto; try lia; congruence.
+        -- intros x. updc x r; cbn.
+           ++ intros _ _. exists (next_stamp s). apply hinsert_In. now left.
+           ++ intros H1 H2. destruct (C4 x H1 H2) as [t Ht]. exists t. apply hinsert_In. now right.
+        -- intros x H. discriminate.
+        -- intros x H. discriminate.
+        -- intros x. updc x r; cbn; intros H; specialize (C7 _ H); lia.
+        -- intros x y. updc x r; updc y r; cbn; auto; apply C8.
+  - apply InvC_ttl_fire. exact HC.
+  - unfold ttl_scan. apply fold_inv; [|exact HC]. intros s0 r0. apply InvC_ttl_fire.
+  - (* WaiterReturn *)
+    unfold waiter_return. destruct (pc (info s r)) eqn:Epc; try exact HC.
+    destruct (1 <=? dones (info s r)) eqn:G; [|exact HC]. apply Z.leb_le in G.
+    assert (Hnheld : held s <> Some r).
+    { intros Hh. apply B1 in Hh. rewrite (B2 r) in G by congruence. lia. }
+    constructor; cbn [info heap next_stamp held with_info]; auto.
+    + intros p0 t x Hi. destruct (C3 p0 t x Hi) as (H1 & H2 & H3 & H4).
+      updc x r; cbn; repeat split; auto. right. reflexivity.
+    + intros x. updc x r; cbn; [discriminate|apply C4].
+    + intros x Hh. updc x r; [congruence|apply C5; assumption].
+    + intros x. updc x r; cbn; [|apply C7]. intros _. apply C7. left. assumption.
+    + intros x y. updc x r; updc y r; cbn; auto.
+      * intros _ H. apply C8; [left|]; assumption.
+      * intros H _. apply C8; [|left]; assumption.
+  - (* Remove *)
+    unfold remove. destruct (pc (info s r)) eqn:Epc; try exact HC.
+    constructor; cbn [info heap next_stamp held].
+    + apply hremove_sorted. assumption.
+    + apply hremove_ids_NoDup. assumption.
+    + intros p0 t x Hi. apply (hremove_In_nodup _ r _ C2) in Hi. destruct Hi as [Hi Hx]. cbn in Hx.
+      rewrite upd_other by assumption. apply C3. assumption.
+    + intros x. updc x r; cbn; [discriminate|].
+      intros H1 H2. destruct (C4 x H1 H2) as [t Ht]. exists t.
+      apply (hremove_In_nodup _ r _ C2). split; [assumption|cbn; assumption].
+    + intros x Hh. pose proof (C5 x Hh). updc x r; [congruence|assumption].
+    + intros x Hh Hi. apply hremove_ids_incl in Hi. apply (C6 x Hh Hi).
+    + intros x. updc x r; cbn; [unfold pushed_pc; cbn; intros [H|H]; discriminate|apply C7].
+    + intros x y. updc x r; [unfold pushed_pc; cbn; intros [H|H]; discriminate|].
+      updc y r; [unfold pushed_pc; cbn; intros _ [H|H]; discriminate|apply C8].
+  - (* Drain *)
+    unfold drain. destruct (drained s); [exact HC|]. destruct (held s) eqn:Eh; [exact HC|].
+    assert (HC' : InvC c (fold_left (release c) (watch s) s)).
+    { apply fold_inv; [|exact HC]. intros s0 r0. apply InvC_release. }
+    apply (InvC_info_only c (fold_left (release c) (watch s) s)); cbn; auto.
+Qed.
+
+(* ------------------------------------------------------------------ all schedules *)
+
+Definition Inv (c : cfg) (s : state) : Prop := InvA s /\ InvB s /\ InvC c s /\ InvD s.
+
+Lemma Inv_init c : Inv c init.
+Proof. split; [|split; [|split]]; [apply InvA_init|apply InvB_init|apply InvC_init|apply InvD_init]. Qed.
+
+Lemma Inv_step c s a : Inv c s -> Inv c (step c s a).
+Proof.
+  intros (HA & HB & HC & HD). split; [|split; [|split]];
+    [apply InvA_step|apply InvB_step|apply InvC_step|apply InvD_step]; assumption.
+Qed.
+
+Lemma Inv_run c sch : Inv c (run c init sch).
+Proof. apply run_inv; [intros s a; apply Inv_step|apply Inv_init]. Qed.
+
+(* ------------------------------------------------------------------ group E: at most one signal *)
+
+(* side condition on a schedule: whenever the drain runs without the gate, no
+   request that already got its signal is still in the watch list *)
+Definition drain_pre (c : cfg) (s : state) (a : action) : Prop :=
+  match a with
+  | Drain => gated_drain (var c) = true \/ forall r, In r (watch s) -> st (info s r) <> Dn
+  | _ => True
+  end.
+
+Definition InvE (s : state) : Prop := forall r, dones (info s r) <= 1.
+
+Lemma InvE_same s s' : (forall x, dones (info s' x) = dones (info s x)) -> InvE s -> InvE s'.
+Proof. intros H HE r. rewrite H. apply HE. Qed.
+
+Lemma InvE_ttl_fire s now r : InvB s -> InvE s -> InvE (ttl_fire s now r).
+Proof.
+  intros [B1 B2 B3 B4] HE. unfold ttl_fire.
+  destruct (memZ r (watch s) && (expire (info s r) <? now) && is_enq (info s r)) eqn:G; [|exact HE].
+  apply andb_true_iff in G. destruct G as [_ G]. unfold is_enq in G.
+  destruct (st (info s r)) eqn:Est; try discriminate.
+  intros x. cbn. updc x r; cbn; [|apply HE]. rewrite B2 by congruence. lia.
+Qed.
+
+Lemma BE_fold_ttl now l s :
+  InvB s -> InvE s ->
+  InvB (fold_left (fun s0 r => ttl_fire s0 now r) l s) /\
+  InvE (fold_left (fun s0 r => ttl_fire s0 now r) l s).
+Proof.
+  revert s. induction l as [|a l IH]; intros s HB HE; cbn; [auto|].
+  apply IH; [apply InvB_ttl_fire|apply InvE_ttl_fire]; assumption.
+Qed.
+
+Lemma release_other c s a x : x <> a -> info (release c s a) x = info s x.
+Proof.
+  intros H. unfold release. destruct (gated_drain _); [destruct (is_enq _)|]; cbn;
+    rewrite ?upd_other by assumption; reflexivity.
+Qed.
+
+Lemma InvE_fold_release c l s :
+  NoDup l -> InvB s -> held s = None -> InvE s ->
+  (gated_drain (var c) = true \/ forall r, In r l -> st (info s r) <> Dn) ->
+  InvE (fold_left (release c) l s).
+Proof.
+  revert s. induction l as [|a l IH]; intros s Hn HB Hh HE Hpre; cbn; [exact HE|].
+  inversion Hn as [|? ? Hna Hn']; subst.
+  apply IH; auto.
+  - apply InvB_release; assumption.
+  - pose proof (release_frame c s a) as (?&?&?&?&?&?&?&?). congruence.
+  - destruct HB as [B1 B2 B3 B4]. unfold release. destruct (gated_drain (var c)) eqn:Eg.
+    + unfold is_enq. destruct (st (info s a)) eqn:Est; try exact HE.
+      intros x. cbn. updc x a; cbn; [|apply HE]. rewrite B2 by congruence. lia.
+    + destruct Hpre as [Hpre|Hpre]; [discriminate|].
+      intros x. cbn. updc x a; cbn; [|apply HE]. rewrite B2; [lia|]. apply Hpre. now left.
+  - destruct Hpre as [Hpre|Hpre]; [now left|right].
+    intros r Hr. rewrite release_other; [apply Hpre; now right|]. intros ->. contradiction.
+Qed.
+
+Lemma InvE_step c s a : InvA s -> InvB s -> InvE s -> drain_pre c s a -> InvE (step c s a).
+Proof.
+  intros HA HB HE Hpre. pose proof HB as [B1 B2 B3 B4].
+  destruct a as [r p now|r|r| |b|now r|now|r|r| ]; cbn [step].
+  - unfold arrive_check. destruct (pc (info s r)); try exact HE.
+    destruct (qmax c <=? count s); (apply (InvE_same s); [|exact HE]; intros x; cbn; updc x r; reflexivity).
+  - unfold arrive_register. destruct (pc (info s r)); try exact HE.
+    destruct (shared_full c s || _ || _); (apply (InvE_same s); [|exact HE]; intros x; cbn; updc x r; reflexivity).
+  - unfold arrive_push. destruct (pc (info s r)); try exact HE.
+    apply (InvE_same s); [|exact HE]. intros x; cbn; updc x r; reflexivity.
+  - unfold tick_pop. destruct (drained s); [exact HE|]. destruct (held s); [exact HE|].
+    destruct (heap s) as [|[[p t] r] h']; [exact HE|].
+    destruct (memZ r (watch s) && is_enq (info s r)); (apply (InvE_same s); [|exact HE]; intros x; cbn);
+      [updc x r; reflexivity|reflexivity].
+  - unfold tick_decide. destruct (held s) as [r|] eqn:Eh; [|exact HE].
+    assert (Est : st (info s r) = Proc) by (apply B1; reflexivity).
+    destruct b.
+    + intros x. cbn. updc x r; cbn; [|apply HE]. rewrite B2 by congruence. lia.
+    + destruct (keep_stamp (var c)); (apply (InvE_same s); [|exact HE]; intros x; cbn; updc x r; reflexivity).
+  - apply InvE_ttl_fire; assumption.
+  - unfold ttl_scan. apply BE_fold_ttl; assumption.
+  - unfold waiter_return. destruct (pc (info s r)); try exact HE.
+    destruct (1 <=? dones (info s r)); [|exact HE].
+    apply (InvE_same s); [|exact HE]. intros x; cbn; updc x r; reflexivity.
+  - unfold remove. destruct (pc (info s r)); try exact HE.
+    apply (InvE_same s); [|exact HE]. intros x; cbn; updc x r; reflexivity.
+  - unfold drain. destruct (drained s); [exact HE|]. destruct (held s) eqn:Eh; [exact HE|].
+    apply (InvE_same (fold_left (release c) (watch s) s)); [intros x; reflexivity|].
+    apply InvE_fold_release; auto. apply HA.
+Qed.
+
+Lemma ABE_run c sch :
+  trace_ok c (drain_pre c) init sch ->
+  InvA (run c init sch) /\ InvB (run c init sch) /\ InvE (run c init sch).
+Proof.
+  apply (run_inv_pre c (drain_pre c) (fun s => InvA s /\ InvB s /\ InvE s)).
+  - intros s a (HA & HB & HE) Hp. split; [|split];
+      [apply InvA_step|apply InvB_step|apply InvE_step]; assumption.
+  - split; [|split]; [apply InvA_init|apply InvB_init|]. intros r. cbn. lia.
+Qed.
+
+(* a schedule without Drain, or any schedule of a tree whose drain is gated,
+   satisfies the side condition *)
+Fixpoint no_drain (sch : list action) : Prop :=
+  match sch with
+  | [] => True
+  | Drain :: _ => False
+  | _ :: rest => no_drain rest
+  end.
+
+Lemma no_drain_pre c sch s : no_drain sch -> trace_ok c (drain_pre c) s sch.
+Proof.
+  revert s. induction sch as [|a sch IH]; intros s H; cbn; [exact I|].
+  destruct a; cbn in *; try (split; [exact I|apply IH; assumption]). contradiction.
+Qed.
+
+Lemma gated_pre c sch s : gated_drain (var c) = true -> trace_ok c (drain_pre c) s sch.
+Proof.
+  intros Hg. revert s. induction sch as [|a sch IH]; intros s; cbn; [exact I|].
+  split; [|apply IH]. destruct a; cbn; auto.
+Qed.
+
+(* ------------------------------------------------------------------ TTL scan and drain reach everybody *)
+
+Lemma ttl_fire_other s now a x : x <> a -> info (ttl_fire s now a) x = info s x.
+Proof.
+  intros H. unfold ttl_fire. destruct (_ && _ && _); cbn; rewrite ?upd_other by assumption; reflexivity.
+Qed.
+
+Lemma ttl_fire_expire s now a x : expire (info (ttl_fire s now a) x) = expire (info s x).
+Proof.
+  unfold ttl_fire. destruct (_ && _ && _); [|reflexivity]. cbn. updc x a; reflexivity.
+Qed.
+
+Lemma ttl_fire_not_enq s now a x : st (info s x) <> Enq -> st (info (ttl_fire s now a) x) <> Enq.
+Proof.
+  intros H. unfold ttl_fire. destruct (_ && _ && _); [|exact H]. cbn. updc x a; cbn; [discriminate|exact H].
+Qed.
+
+Lemma fold_ttl_reaches now r l s :
+  In r (watch s) -> expire (info s r) < now -> (In r l \/ st (info s r) <> Enq) ->
+  st (info (fold_left (fun s0 x => ttl_fire s0 now x) l s) r) <> Enq.
+Proof.
+  revert s. induction l as [|a l IH]; intros s Hw He Hor; cbn.
+  - destruct Hor as [[]|H]. exact H.
+  - pose proof (ttl_fire_frame s now a) as (_ & Fw & _).
+    apply IH; [rewrite Fw; exact Hw|rewrite ttl_fire_expire; exact He|].
+    destruct (Z.eq_dec a r) as [->|Hne].
+    + right. unfold ttl_fire. apply memZ_In in Hw. apply Z.ltb_lt in He. rewrite Hw, He. cbn [andb].
+      unfold is_enq. destruct (st (info s r)) eqn:Est; cbn; rewrite ?upd_same; cbn; congruence.
+    + destruct Hor as [[H|H]|H]; [congruence|now left|right; apply ttl_fire_not_enq; exact H].
+Qed.
+
+Lemma ttl_scan_reaches s now r :
+  In r (watch s) -> expire (info s r) < now -> st (info (ttl_scan s now) r) <> Enq.
+Proof. intros Hw He. unfold ttl_scan. apply fold_ttl_reaches; auto. Qed.
+
+Lemma release_dn_stays c s a x : st (info s x) = Dn -> st (info (release c s a) x) = Dn.
+Proof.
+  intros H. unfold release. destruct (gated_drain _); [destruct (is_enq _)|]; cbn; try exact H;
+    (updc x a; cbn; [reflexivity|exact H]).
+Qed.
+
+Lemma fold_release_reaches c r l s :
+  (forall x, st (info s x) <> Proc) -> (In r l \/ st (info s r) = Dn) ->
+  st (info (fold_left (release c) l s) r) = Dn.
+Proof.
+  revert s. induction l as [|a l IH]; intros s Hnp Hor; cbn.
+  - destruct Hor as [[]|H]. exact H.
+  - apply IH.
+    + intros x. unfold release. destruct (gated_drain _); [destruct (is_enq _)|]; cbn; try apply Hnp;
+        (updc x a; cbn; [discriminate|apply Hnp]).
+    + destruct (Z.eq_dec a r) as [->|Hne].
+      * right. unfold release. destruct (gated_drain _); cbn; rewrite ?upd_same; cbn; auto.
+        unfold is_enq. destruct (st (info s r)) eqn:Est; cbn; rewrite ?upd_same; cbn; auto.
+        exfalso. apply (Hnp r). exact Est.
+      * destruct Hor as [[H|H]|H]; [congruence|now left|right; apply release_dn_stays; exact H].
+Qed.
+
+Lemma drain_reaches c s r :
+  InvB s -> drained s = false -> held s = None -> In r (watch s) ->
+  st (info (drain c s) r) = Dn.
+Proof.
+  intros [B1 B2 B3 B4] Hd Hh Hw. unfold drain. rewrite Hd, Hh. cbn.
+  apply fold_release_reaches; [|now left]. intros x Hx. apply B1 in Hx. congruence.
+Qed.
+
+(* ------------------------------------------------------------------ group F: the size bound *)
+
+Definition max0 (c : cfg) : Z := Z.max 0 (qmax c).
+
+(* side condition on a schedule (only needed when registration is not atomic):
+   an arrival runs its slot check only when no other arrival is between its own
+   check and its registration *)
+Definition arrival_pre (c : cfg) (s : state) (a : action) : Prop :=
+  atomic_reg (var c) = true \/
+  match a with ArriveCheck _ _ _ => checked s = [] | _ => True end.
+
+Definition InvF (c : cfg) (s : state) : Prop :=
+  (atomic_reg (var c) = true -> count s <= max0 c) /\
+  (atomic_reg (var c) = false -> count s + Z.of_nat (length (checked s)) <= max0 c).
+
+Lemma InvF_same c s s' : count s' = count s -> checked s' = checked s -> InvF c s -> InvF c s'.
+Proof. intros H1 H2 [F1 F2]. split; rewrite H1, ?H2; assumption. Qed.
+
+Lemma InvF_step c s a : InvA s -> InvF c s -> arrival_pre c s a -> InvF c (step c s a).
+Proof.
+  intros HA HF Hpre. pose proof HA as [A1 A2 A3 A4 A5]. pose proof HF as [F1 F2]. unfold max0 in *.
+  destruct a as [r p now|r|r| |b|now r|now|r|r| ]; cbn [step].
+  - unfold arrive_check. destruct (pc (info s r)); try exact HF.
+    destruct (qmax c <=? count s) eqn:G; [apply (InvF_same c s); auto|].
+    apply Z.leb_gt in G. split; cbn [count checked length]; [exact F1|].
+    intros Ha. destruct Hpre as [Hpre|Hpre]; [congruence|]. rewrite Hpre. cbn. (unfold max0 in *; lia).
+  - unfold arrive_register. destruct (pc (info s r)) eqn:Epc; try exact HF.
+    assert (Hin : In r (checked s)) by (apply A4; exact Epc).
+    pose proof (removeZ_length r (checked s) A5 Hin) as Hl.
+    destruct (shared_full c s || (atomic_reg (var c) && (qmax c <=? count s))
+              || (closed_after_drain (var c) && drained s)) eqn:G.
+    + split; cbn [count checked]; [exact F1|]. intros Ha. specialize (F2 Ha). (unfold max0 in *; lia).
+    + apply orb_false_iff in G. destruct G as [G _].
+      apply orb_false_iff in G. destruct G as [_ G]. split; cbn [count checked].
+      * intros Ha. rewrite Ha in G. cbn in G. apply Z.leb_gt in G. (unfold max0 in *; lia).
+      * intros Ha. specialize (F2 Ha). (unfold max0 in *; lia).
+  - unfold arrive_push. destruct (pc (info s r)); exact HF.
+  - unfold tick_pop. destruct (drained s); [exact HF|]. destruct (held s); [exact HF|].
+    destruct (heap s) as [|[[p t] r] h']; [exact HF|].
+    destruct (memZ r (watch s) && is_enq (info s r)); exact HF.
+  - unfold tick_decide. destruct (held s) as [r|]; [|exact HF].
+    destruct b; [|destruct (keep_stamp (var c))]; exact HF.
+  - pose proof (ttl_fire_frame s now r) as (?&?&?&?&?&?&?&?). apply (InvF_same c s); auto.
+  - pose proof (ttl_scan_frame s now) as (?&?&?&?&?&?&?&?). apply (InvF_same c s); auto.
+  - unfold waiter_return. destruct (pc (info s r)); try exact HF.
+    destruct (1 <=? dones (info s r)); exact HF.
+  - unfold remove. destruct (pc (info s r)); try exact HF.
+    split; cbn [count checked]; intros Ha; [specialize (F1 Ha)|specialize (F2 Ha)]; (unfold max0 in *; lia).
+  - unfold drain. destruct (drained s); [exact HF|]. destruct (held s); [exact HF|].
+    pose proof (fold_release_frame c (watch s) s) as F. cbn in F. destruct F as (?&?&?&?&?&?&?&?).
+    apply (InvF_same c s); cbn; auto.
+Qed.
+
+Lemma AF_run c sch :
+  trace_ok c (arrival_pre c) init sch -> InvA (run c init sch) /\ InvF c (run c init sch).
+Proof.
+  apply (run_inv_pre c (arrival_pre c) (fun s => InvA s /\ InvF c s)).
+  - intros s a (HA & HF) Hp. split; [apply InvA_step|apply InvF_step]; assumption.
+  - split; [apply InvA_init|]. unfold InvF, max0. cbn. split; intros _; lia.
+Qed.
+
+Lemma atomic_pre c sch s : atomic_reg (var c) = true -> trace_ok c (arrival_pre c) s sch.
+Proof.
+  intros Hg. revert s. induction sch as [|a sch IH]; intros s; cbn; [exact I|].
+  split; [now left|apply IH].
+Qed.
+
+Lemma filter_len_le {A} (f : A -> bool) l : (length (filter f l) <= length l)%nat.
+Proof. induction l as [|a l IH]; cbn; [auto|]. destruct (f a); cbn; auto with arith. Qed.
+
+Lemma waiting_le_count s : InvA s -> waiting s <= count s.
+Proof.
+  intros [_ _ A3 _ _]. unfold waiting. rewrite A3.
+  apply inj_le. apply filter_len_le.
+Qed.
+
+Lemma bound_of_InvF c s : InvA s -> InvF c s -> waiting s <= max0 c.
+Proof.
+  intros HA [F1 F2]. pose proof (waiting_le_count s HA).
+  destruct (atomic_reg (var c)); [specialize (F1 eq_refl)|specialize (F2 eq_refl)]; lia.
+Qed.
+
+(* ------------------------------------------------------------------ order of admissions *)
+
+(* what the property says about the request the loop takes next: [r] is at the
+   head of the queue and passes the gate; every other waiting request r' ... *)
+Definition lex_lt (p1 t1 p2 t2 : Z) : Prop := p1 < p2 \/ (p1 = p2 /\ t1 < t2).
+
+Definition picks (s : state) (r : Z) : Prop :=
+  exists p t h', heap s = (p, t, r) :: h' /\ In r (watch s) /\ st (info s r) = Enq.
+
+Definition is_waiting (s : state) (r : Z) : Prop :=
+  pc (info s r) = PWaiting /\ st (info s r) = Enq.
+
+Lemma pick_prio c s r r' :
+  Inv c s -> picks s r -> is_waiting s r' -> prio (info s r) <= prio (info s r').
+Proof.
+  intros (HA & HB & HC & HD) (p & t & h' & Hh & Hw & Hs) [Hp' Hs'].
+  destruct HC as [C1 C2 C3 C4 C5 C6 C7 C8].
+  destruct (Z.eq_dec r' r) as [->|Hne]; [lia|].
+  destruct (C4 r' Hp' Hs') as [t' Hi]. rewrite Hh in Hi, C1, C3.
+  destruct (C3 p t r (or_introl eq_refl)) as (E1 & _).
+  destruct Hi as [Hi|Hi]; [inversion Hi; congruence|].
+  pose proof (sorted_head _ _ _ C1 Hi) as Hk. unfold kle in Hk. apply key_le_spec in Hk. cbn in Hk. lia.
+Qed.
+
+Lemma pick_fifo c s r r' :
+  keep_stamp (var c) = true ->
+  Inv c s -> picks s r -> is_waiting s r' -> r' <> r ->
+  lex_lt (prio (info s r)) (astamp (info s r)) (prio (info s r')) (astamp (info s r')).
+Proof.
+  intros Hk (HA & HB & HC & HD) (p & t & h' & Hh & Hw & Hs) [Hp' Hs'] Hne.
+  destruct HC as [C1 C2 C3 C4 C5 C6 C7 C8].
+  destruct (C4 r' Hp' Hs') as [t' Hi]. rewrite Hh in Hi, C1, C3.
+  destruct (C3 p t r (or_introl eq_refl)) as (E1 & P1 & _ & E2). specialize (E2 Hk).
+  destruct Hi as [Hi|Hi]; [inversion Hi; congruence|].
+  destruct (C3 _ _ _ (or_intror Hi)) as (_ & P2 & _ & E3). specialize (E3 Hk).
+  pose proof (sorted_head _ _ _ C1 Hi) as Hle. unfold kle in Hle. apply key_le_spec in Hle. cbn in Hle.
+  assert (Hd : astamp (info s r) <> astamp (info s r')).
+  { intros E. apply Hne. symmetry. apply C8; assumption. }
+  unfold lex_lt. lia.
+Qed.
+
+(* the stamp is the arrival order: a request that enters the queue gets a stamp
+   above the stamps of all requests that entered before it *)
+Lemma push_stamp c s r r' :
+  Inv c s -> pc (info s r') = PRegistered -> pushed_pc (info s r) ->
+  let s' := step c s (ArrivePush r') in
+  astamp (info s' r) = astamp (info s r) /\ astamp (info s' r) < astamp (info s' r').
+Proof.
+  intros (HA & HB & HC & HD) Hp Hr. cbn. unfold arrive_push. rewrite Hp. cbn.
+  assert (Hne : r <> r'). { intros ->. destruct Hr as [H|H]; congruence. }
+  rewrite upd_other by assumption. rewrite upd_same. cbn. split; [reflexivity|].
+  apply HC. exact Hr.
+Qed.
+
+(* ------------------------------------------------------------------ signals only accumulate; admissions come from the quota *)
+
+Lemma ttl_fire_dones s now a r : dones (info s r) <= dones (info (ttl_fire s now a) r).
+Proof.
+  unfold ttl_fire. destruct (_ && _ && _); [|lia]. cbn. updc r a; cbn; lia.
+Qed.
+
+Lemma release_dones c s a r : dones (info s r) <= dones (info (release c s a) r).
+Proof.
+  unfold release. destruct (gated_drain _); [destruct (is_enq _)|]; cbn; try lia; (updc r a; cbn; lia).
+Qed.
+
+Lemma fold_ttl_dones now l s r :
+  dones (info s r) <= dones (info (fold_left (fun s0 x => ttl_fire s0 now x) l s) r).
+Proof.
+  revert s. induction l as [|a l IH]; intros s; cbn; [lia|].
+  specialize (IH (ttl_fire s now a)). pose proof (ttl_fire_dones s now a r). lia.
+Qed.
+
+Lemma fold_release_dones c l s r :
+  dones (info s r) <= dones (info (fold_left (release c) l s) r).
+Proof.
+  revert s. induction l as [|a l IH]; intros s; cbn; [lia|].
+  specialize (IH (release c s a)). pose proof (release_dones c s a r). lia.
+Qed.
+
+Lemma dones_mono_step c s a r : dones (info s r) <= dones (info (step c s a) r).
+Proof.
+  destruct a as [x p now|x|x| |b|now x|now|x|x| ]; cbn [step].
+  - unfold arrive_check. destruct (pc (info s x)); try lia.
+    destruct (qmax c <=? count s); cbn; (updc r x; cbn; lia).
+  - unfold arrive_register. destruct (pc (info s x)); try lia.
+    destruct (shared_full c s || _ || _); cbn; (updc r x; cbn; lia).
+  - unfold arrive_push. destruct (pc (info s x)); try lia. cbn. updc r x; cbn; lia.
+  - unfold tick_pop. destruct (drained s); [lia|]. destruct (held s); [lia|].
+    destruct (heap s) as [|[[p t] x] h']; [lia|].
+    destruct (memZ x (watch s) && is_enq (info s x)); cbn; [updc r x; cbn; lia|lia].
+  - unfold tick_decide. destruct (held s) as [x|]; [|lia].
+    destruct b; [|destruct (keep_stamp (var c))]; cbn; (updc r x; cbn; lia).
+  - apply ttl_fire_dones.
+  - apply fold_ttl_dones.
+  - unfold waiter_return. destruct (pc (info s x)); try lia.
+    destruct (1 <=? dones (info s x)); [|lia]. cbn. updc r x; cbn; lia.
+  - unfold remove. destruct (pc (info s x)); try lia. cbn. updc r x; cbn; lia.
+  - unfold drain. destruct (drained s); [lia|]. destruct (held s); [lia|]. cbn.
+    apply fold_release_dones.
+Qed.
+
+Lemma dones_mono_run c sch s r : dones (info s r) <= dones (info (run c s sch) r).
+Proof.
+  revert s. induction sch as [|a sch IH]; intros s; [cbn; lia|].
+  rewrite run_cons. specialize (IH (step c s a)). pose proof (dones_mono_step c s a r). lia.
+Qed.
+
+Lemma admits_step c s a r :
+  In r (admits (step c s a)) -> In r (admits s) \/ (a = TickDecide true /\ held s = Some r).
+Proof.
+  destruct a as [x p now|x|x| |b|now x|now|x|x| ]; cbn [step].
+  - unfold arrive_check. destruct (pc (info s x)); auto. destruct (qmax c <=? count s); cbn; auto.
+  - unfold arrive_register. destruct (pc (info s x)); auto. destruct (shared_full c s || _ || _); cbn; auto.
+  - unfold arrive_push. destruct (pc (info s x)); auto.
+  - unfold tick_pop. destruct (drained s); auto. destruct (held s); auto.
+    destruct (heap s) as [|[[p t] x] h']; auto.
+    destruct (memZ x (watch s) && is_enq (info s x)); cbn; auto.
+  - unfold tick_decide. destruct (held s) as [x|] eqn:Eh; auto.
+    destruct b; [|destruct (keep_stamp (var c)); cbn; auto].
+    cbn. intros [->|H]; auto.
+  - pose proof (ttl_fire_frame s now x) as (_&_&_&_&_&_&_&E). rewrite E. auto.
+  - pose proof (ttl_scan_frame s now) as (_&_&_&_&_&_&_&E). rewrite E. auto.
+  - unfold waiter_return. destruct (pc (info s x)); auto. destruct (1 <=? dones (info s x)); auto.
+  - unfold remove. destruct (pc (info s x)); auto.
+  - unfold drain. destruct (drained s); auto. destruct (held s); auto. cbn.
+    pose proof (fold_release_frame c (watch s) s) as F. cbn in F. destruct F as (_&_&_&_&_&_&_&E).
+    rewrite E. auto.
+Qed.
+
+(* every admitted request was the one the loop held when the quota said yes *)
+Lemma admits_origin c sch r :
+  In r (admits (run c init sch)) ->
+  exists sch1 sch2, sch = sch1 ++ TickDecide true :: sch2 /\ held (run c init sch1) = Some r.
+Proof.
+  induction sch as [|a sch IH] using rev_ind; [cbn; contradiction|].
+  rewrite run_app. cbn [run fold_left]. intros H. apply admits_step in H. destruct H as [H|[-> H]].
+  - destruct (IH H) as (s1 & s2 & -> & Hh). exists s1, (s2 ++ [a]). split; [|exact Hh].
+    rewrite <- app_assoc. reflexivity.
+  - exists sch, []. split; [reflexivity|exact H].
+Qed.
+
+(* ------------------------------------------------------------------ group G: after the drain *)
+
+Lemma st_dn_ttl_fire s now a x : st (info s x) = Dn -> st (info (ttl_fire s now a) x) = Dn.
+Proof.
+  intros H. unfold ttl_fire. destruct (_ && _ && _); [|exact H]. cbn. updc x a; cbn; [reflexivity|exact H].
+Qed.
+
+Lemma st_dn_fold_ttl now l s x :
+  st (info s x) = Dn -> st (info (fold_left (fun s0 r => ttl_fire s0 now r) l s) x) = Dn.
+Proof.
+  revert s. induction l as [|a l IH]; intros s H; cbn; [exact H|]. apply IH, st_dn_ttl_fire, H.
+Qed.
+
+Lemma st_dn_fold_release c l s x :
+  st (info s x) = Dn -> st (info (fold_left (release c) l s) x) = Dn.
+Proof.
+  revert s. induction l as [|a l IH]; intros s H; cbn; [exact H|]. apply IH, release_dn_stays, H.
+Qed.
+
+(* a signalled request stays signalled *)
+Lemma st_dn_step c s a x : InvB s -> st (info s x) = Dn -> st (info (step c s a) x) = Dn.
+Proof.
+  intros [B1 B2 B3 B4] H.
+  destruct a as [r p now|r|r| |b|now r|now|r|r| ]; cbn [step].
+  - unfold arrive_check. destruct (pc (info s r)); try exact H.
+    destruct (qmax c <=? count s); cbn; (updc x r; cbn; exact H).
+  - unfold arrive_register. destruct (pc (info s r)); try exact H.
+    destruct (shared_full c s || _ || _); cbn; (updc x r; cbn; exact H).
+  - unfold arrive_push. destruct (pc (info s r)); try exact H. cbn. updc x r; cbn; exact H.
+  - unfold tick_pop. destruct (drained s); [exact H|]. destruct (held s); [exact H|].
+    destruct (heap s) as [|[[p t] r] h']; [exact H|].
+    destruct (memZ r (watch s) && is_enq (info s r)) eqn:G; cbn; [|exact H].
+    updc x r; cbn; [|exact H]. apply andb_true_iff in G. destruct G as [_ G].
+    unfold is_enq in G. rewrite H in G. discriminate.
+  - unfold tick_decide. destruct (held s) as [r|] eqn:Eh; [|exact H].
+    assert (Est : st (info s r) = Proc) by (apply B1; reflexivity).
+    destruct b; [|destruct (keep_stamp (var c))]; cbn; (updc x r; cbn; [congruence|exact H]).
+  - apply st_dn_ttl_fire. exact H.
+  - apply st_dn_fold_ttl. exact H.
+  - unfold waiter_return. destruct (pc (info s r)); try exact H.
+    destruct (1 <=? dones (info s r)); [|exact H]. cbn. updc x r; cbn; exact H.
+  - unfold remove. destruct (pc (info s r)); try exact H. cbn. updc x r; cbn; exact H.
+  - unfold drain. destruct (drained s); [exact H|]. destruct (held s); [exact H|]. cbn.
+    apply st_dn_fold_release. exact H.
+Qed.
+
+(* once the drain has run the loop holds nothing, and (fix F-C06d) every
+   registered request has been signalled: nobody registers afterwards *)
+Definition InvG (c : cfg) (s : state) : Prop :=
+  (drained s = true -> held s = None) /\
+  (closed_after_drain (var c) = true -> drained s = true ->
+   forall r, In r (watch s) -> st (info s r) = Dn).
+
+Lemma InvG_init c : InvG c init.
+Proof. split; cbn; intros; try discriminate. Qed.
+
+Lemma arrive_register_frame c s r :
+  drained (arrive_register c s r) = drained s /\ held (arrive_register c s r) = held s /\
+  (watch (arrive_register c s r) = watch s \/
+   (watch (arrive_register c s r) = r :: watch s /\
+    closed_after_drain (var c) && drained s = false)).
+Proof.
+  unfold arrive_register. destruct (pc (info s r)); auto.
+  destruct (shared_full c s || (atomic_reg (var c) && (qmax c <=? count s))
+            || (closed_after_drain (var c) && drained s)) eqn:G; cbn; auto.
+  apply orb_false_iff in G. destruct G as [_ G]. auto.
+Qed.
+
+Lemma tick_pop_frame s :
+  drained (tick_pop s) = drained s /\ watch (tick_pop s) = watch s /\
+  (drained s = true -> tick_pop s = s).
+Proof.
+  unfold tick_pop. destruct (drained s) eqn:Ed; [auto|].
+  destruct (held s); [repeat split; auto; discriminate|].
+  destruct (heap s) as [|[[p t] r] h']; [repeat split; auto; discriminate|].
+  destruct (memZ r (watch s) && is_enq (info s r)); cbn; repeat split; auto; discriminate.
+Qed.
+
+Lemma tick_decide_frame c s b :
+  drained (tick_decide c s b) = drained s /\ watch (tick_decide c s b) = watch s /\
+  (held s = None -> tick_decide c s b = s).
+Proof.
+  unfold tick_decide. destruct (held s); [|auto].
+  destruct b; [|destruct (keep_stamp (var c))]; cbn; repeat split; auto; discriminate.
+Qed.
+
+Lemma drain_noop c s : drained s = true \/ held s <> None -> drain c s = s.
+Proof.
+  intros H. unfold drain. destruct (drained s); [reflexivity|].
+  destruct (held s); [reflexivity|]. destruct H as [H|H]; [discriminate|contradiction].
+Qed.
+
+Lemma InvG_step c s a : InvB s -> InvG c s -> InvG c (step c s a).
+Proof.
+  intros HB [G1 G2].
+  assert (Hgen : forall s', drained s' = drained s -> (drained s = true -> held s' = None) ->
+            (forall r, In r (watch s') -> In r (watch s)) ->
+            (forall x, st (info s x) = Dn -> st (info s' x) = Dn) -> InvG c s').
+  { intros s' Hd Hh Hw Hs. split; rewrite Hd; auto. }
+  pose proof (fun x => st_dn_step c s a x HB) as Hdn.
+  destruct a as [r p now|r|r| |b|now r|now|r|r| ]; cbn [step] in *.
+  - apply Hgen; auto; unfold arrive_check; destruct (pc (info s r)); auto;
+      destruct (qmax c <=? count s); auto.
+  - destruct (arrive_register_frame c s r) as (Fd & Fh & [Fw|[Fw Fc]]).
+    + apply Hgen; auto; [rewrite Fh; exact G1|rewrite Fw; auto].
+    + split; rewrite Fd; [rewrite Fh; exact G1|].
+      intros Hc Hd. rewrite Hc, Hd in Fc. discriminate.
+  - apply Hgen; auto; unfold arrive_push; destruct (pc (info s r)); auto.
+  - destruct (tick_pop_frame s) as (Fd & Fw & Fs). apply Hgen; auto.
+    + intros Hd. rewrite (Fs Hd). auto.
+    + rewrite Fw. auto.
+  - destruct (tick_decide_frame c s b) as (Fd & Fw & Fs). apply Hgen; auto.
+    + intros Hd. rewrite (Fs (G1 Hd)). auto.
+    + rewrite Fw. auto.
+  - pose proof (ttl_fire_frame s now r) as (?&Fw&?&?&Fh&?&?&?). apply Hgen; auto.
+    + rewrite Fh. exact G1.
+    + rewrite Fw. auto.
+  - pose proof (ttl_scan_frame s now) as (?&Fw&?&?&Fh&?&?&?). apply Hgen; auto.
+    + rewrite Fh. exact G1.
+    + rewrite Fw. auto.
+  - apply Hgen; auto; unfold waiter_return; destruct (pc (info s r)); auto;
+      destruct (1 <=? dones (info s r)); auto.
+  - apply Hgen; auto; unfold remove; destruct (pc (info s r)); auto.
+    cbn. intros x Hx. apply removeZ_In in Hx. tauto.
+  - case_eq (drained s); intros Ed.
+    + rewrite (drain_noop c s) by (left; exact Ed). split; assumption.
+    + case_eq (held s); [intros r0 Eh|intros Eh].
+      * rewrite (drain_noop c s) by (right; congruence). split; assumption.
+      * pose proof (fold_release_frame c (watch s) s) as F. cbn in F.
+        destruct F as (_&Fw&_&_&Fh&_).
+        split.
+        -- intros _. unfold drain. rewrite Ed, Eh. cbn. rewrite Fh. exact Eh.
+        -- intros _ _ r Hr. apply drain_reaches; auto.
+           unfold drain in Hr. rewrite Ed, Eh in Hr. cbn in Hr. rewrite Fw in Hr. exact Hr.
+Qed.
+
+Lemma BG_run c sch : InvB (run c init sch) /\ InvG c (run c init sch).
+Proof.
+  apply (run_inv c (fun s => InvB s /\ InvG c s)).
+  - intros s a [HB HG]. split; [apply InvB_step|apply InvG_step]; assumption.
+  - split; [apply InvB_init|apply InvG_init].
+Qed.
